@@ -75,6 +75,10 @@ def _job(a):
     return pickle.loads(data)
 
 
+def _job_indexed(ia):
+    return ia[0], _job(ia[1])
+
+
 def _job_inner(a):
     from pyvc.contract import verify_job
     import signal
@@ -321,14 +325,97 @@ def main():
         # a contract that is here only because a stub relies on it runs the shapes the stub needs (if it says which)
         shapes = list(fn.stub_shapes(a.tier)) if provider_only and hasattr(fn, "stub_shapes") else list(fn.shapes(a.tier))
         shape_count[n] = len(shapes)
+        # job budgets: the contract's own, else by family size - a family of many small shapes (one error pattern, one burst
+        # position each) gets a short budget per shape, so that a change which makes every shape explode cannot take hours
+        many = len(shapes) >= 50
         for s in shapes:
-            jobs.append((n, s, getattr(fn, "max_paths", 20000), getattr(fn, "budget_s", 600)))
+            jobs.append((n, s, getattr(fn, "max_paths", 3000 if many else 20000), getattr(fn, "budget_s", 90 if many else 600)))
     if a.limit:
         jobs = jobs[: a.limit]
     # longest first would need a cost model; interleave contracts so that slow families spread over the pool
     jobs.sort(key=lambda j: -getattr(REGISTRY[j[0]], "cost", 1))
-    with mp.get_context("fork").Pool(a.jobs, initializer=_init) as pool:
-        res = pool.map(_job, jobs, chunksize=1 if len(jobs) < 4000 else 4)
+    # whole-check budget: results that are in by then stand (refutations included), the rest of the jobs is undecided.
+    # Large families run in two phases: up to 16 probe shapes spread over the family first; if most of the probes run out of
+    # their budget (a change made every shape explode) the remaining shapes are not started - what the probes refuted stands.
+    deadline = t0 + float(os.environ.get("VERIF_MAX_WALL", "1800" if a.tier == "quick" else "36000"))
+    res = [None] * len(jobs)
+    by_contract = {}
+    for i, j in enumerate(jobs):
+        by_contract.setdefault(j[0], []).append(i)
+    probes, later = [], []
+    for n, idx in by_contract.items():
+        if len(idx) <= 32:
+            probes += idx
+        else:
+            pick = sorted({round(k * (len(idx) - 1) / 15) for k in range(16)})
+            probes += [idx[k] for k in pick]
+            later += [i for k, i in enumerate(idx) if k not in set(pick)]
+
+    def run_phase(indices):
+        if not indices:
+            return
+        pool = mp.get_context("fork").Pool(a.jobs, initializer=_init)
+        try:
+            it = pool.imap_unordered(_job_indexed, [(i, jobs[i]) for i in indices], chunksize=1)
+            for _ in range(len(indices)):
+                try:
+                    i, r = it.next(timeout=max(1.0, deadline - time.time()))
+                except mp.TimeoutError:
+                    break
+                res[i] = r
+        finally:
+            pool.terminate()
+            pool.join()
+
+    run_phase(probes)
+    skipped_families = []
+    for n, idx in by_contract.items():
+        pr = [res[i] for i in idx if i in set(probes) and res[i] is not None]
+        if len(idx) > 32 and pr and sum(1 for r in pr if any("budget" in str(u) for u in r["undecided"])) * 2 >= len(pr):
+            skipped_families.append(n)
+    later = [i for i in later if jobs[i][0] not in skipped_families]
+    # fail fast: a refutation of the probe phase that replays natively and is not a listed known finding decides the check
+    # (exit 1); the remaining shapes would only add further instances of it
+    early = False
+    if later:
+        kf0 = json.load(open(os.path.join(HERE, "known_findings.json"))).get("known", [])
+        cands = []
+        for r in res:
+            if r is None or REGISTRY[r["contract"]].canary:
+                continue
+            for x in r["refuted"][:2]:
+                cands.append(dict(contract=r["contract"], shape=r["shape"], clause=x["clause"], witness=x["witness"]))
+            for e in r["exceptions"][:1]:
+                cands.append(dict(contract=r["contract"], shape=r["shape"], clause="no-exception", witness=e["witness"]))
+        seen_c, pick_c = {}, []
+        for c in cands:
+            k = (c["contract"], c["clause"])
+            seen_c[k] = seen_c.get(k, 0) + 1
+            if seen_c[k] <= 3 and len(pick_c) < 48:
+                pick_c.append(c)
+        if pick_c:
+            for c, rr in zip(pick_c, native_batch([dict(contract=c["contract"], shape=c["shape"], witness=c["witness"]) for c in pick_c], a.jobs)):
+                raised = bool(rr.get("exception")) and rr["exception"] != "precondition false"
+                ok = raised if c["clause"] == "no-exception" else (c["clause"] in rr.get("failed", []))
+                if not ok:
+                    continue
+                obl = base_obligation(REGISTRY, c["contract"], c["clause"])
+                props_c = REGISTRY[c["contract"]].properties
+                if not any(known_match(e, e["property"], obl, c["shape"], c["witness"] or {}) and e["property"] in props_c for e in kf0):
+                    early = True
+                    break
+    if early:
+        for i in later:
+            res[i] = dict(contract=jobs[i][0], shape=jobs[i][1], paths=0, clauses={}, refuted=[], undecided=["not started: a violation found by the probe shapes was already confirmed natively"], exceptions=[], stub_calls={}, pre_false=0, t=0, stats={})
+    else:
+        run_phase(later)
+    for n in skipped_families:
+        for i in by_contract[n]:
+            if res[i] is None:
+                res[i] = dict(contract=jobs[i][0], shape=jobs[i][1], paths=0, clauses={}, refuted=[], undecided=["not started: most probe shapes of this family ran out of their budget"], exceptions=[], stub_calls={}, pre_false=0, t=0, stats={})
+    for i, r in enumerate(res):
+        if r is None:
+            res[i] = dict(contract=jobs[i][0], shape=jobs[i][1], paths=0, clauses={}, refuted=[], undecided=["check budget exceeded before this job finished"], exceptions=[], stub_calls={}, pre_false=0, t=0, stats={})
     t_sym = time.time() - t0
 
     agg = {}  # obligation -> stats
